@@ -319,6 +319,9 @@ def run(check, an: Analysis):
                 reads.append((module, node))
     check.instance('D', '__debug__:only-in-blocks', len(reads) == n_blocks, 'usim/**',
                    '%d reads of __debug__, all as the test of a definition block' % len(reads))
+    # the kernel rules every suspending operation rests on (shared; see _scope)
+    from . import _scope as _kernel
+    _kernel.check_kernel_core(check, an)
     check.stats.update(an.stats())
 
 
